@@ -127,8 +127,11 @@ func scenario(p params, bounds []int) *vexp.Scenario {
 				vrt.AddTimer(int64(t)-vrt.Now(), "advance", func() {})
 				vrt.Quiesce()
 			}
-			// "stays absent": from the moment a node is dead (crashed, left, replaced by a new incarnation) the views of the running
-			// nodes are sampled every 250 ms; once a view has dropped the dead node it must not list it again
+			// "eventually absent and stays absent": from the moment a node is dead (crashed, left, replaced by a new incarnation) the
+			// views of the running nodes are sampled every 250 ms; a view that has dropped the dead node and lists it again in the
+			// last third of the healing phase has not settled (re-additions by a merge are silent: no event announces them, so
+			// no-further-changes alone would not see a late flap). Earlier transients are within what "eventually" allows.
+			stableFrom := time.Duration(-1)         // set when the healing phase is laid out
 			deadSince := map[string]time.Duration{} // "id@address" -> when it died
 			droppedAt := map[string]time.Duration{} // "observer|id@address" -> first sample without it
 			reported := map[string]bool{}
@@ -170,9 +173,9 @@ func scenario(p params, bounds []int) *vexp.Scenario {
 							if _, ok := droppedAt[k]; !ok {
 								droppedAt[k] = now
 							}
-						} else if at, ok := droppedAt[k]; ok && !reported[k] {
+						} else if at, ok := droppedAt[k]; ok && !reported[k] && stableFrom >= 0 && now >= stableFrom {
 							reported[k] = true
-							x.Fail("dead-member-removed", "node %s had dropped %s (dead since %v) from its view at %v but lists it again at %v: it did not stay absent", nd.address, d, deadSince[d], at, now)
+							x.Fail("dead-member-removed", "node %s had dropped %s (dead since %v) from its view at %v but lists it again at %v, in the last third of the healing phase (from %v): it did not stay absent", nd.address, d, deadSince[d], at, now, stableFrom)
 						}
 					}
 				}
@@ -290,6 +293,7 @@ func scenario(p params, bounds []int) *vexp.Scenario {
 			if mx := maxOff + horizon; mx > endAt {
 				endAt = mx
 			}
+			stableFrom = endAt - horizon/3
 			advanceSampling(endAt)
 			// ---------------- oracle at the horizon ----------------
 			type viewSum struct {
